@@ -27,6 +27,9 @@
 #include <opm/output/eclipse/Inplace.hpp>
 
 #include <cmath>
+#include <stdexcept>
+#include <sys/stat.h>
+#include <unistd.h>
 
 namespace srun {
 
@@ -45,6 +48,7 @@ std::unique_ptr<World> World::create(const std::string& deck_text, const RunCfg&
     w->es = std::make_unique<EclipseState>(w->deck);
     w->es->getIOConfig().setBaseName(cfg.base);
     w->es->getIOConfig().setOutputDir(".");
+    w->es->getIOConfig().setEclCompatibleRST(cfg.ecl_compat);
     w->restart_step = restart_step;
     if (restart_step >= 0) {
         const auto& init = w->es->getInitConfig();
@@ -127,13 +131,18 @@ data::Wells physics(const World& w, int report_step, double t) {
         const auto& conns = well.getConnections();
         size_t nopen = 0;
         for (const auto& c : conns) if (c.state() == Connection::State::OPEN) ++nopen;
-        size_t ci = 0;
+        size_t ci = 0, open_seen = 0;
         for (const auto& c : conns) {
             data::Connection dc;
             dc.index = c.global_index();
             const bool copen = (open || w.cfg.shut_report_rates) && c.state() == Connection::State::OPEN && nopen > 0;
             const double share = copen ? 1.0 / static_cast<double>(nopen) : 0.0;
             dc.rates.set(data::Rates::opt::oil, ro * share).set(data::Rates::opt::wat, rw * share).set(data::Rates::opt::gas, rg * share);
+            if (well.getStatus() == Well::Status::STOP && c.state() == Connection::State::OPEN && nopen >= 2) {
+                // a stopped well has no surface flow but may cross-flow between its connections: +q / -q in pairs
+                const size_t oi = open_seen++;
+                if (oi + 1 < nopen || nopen % 2 == 0) { const double qx = ((oi % 2) ? -1.0 : 1.0) * bw * 0.01; dc.rates.set(data::Rates::opt::wat, qx); }
+            }
             dc.pressure = dw.bhp + 1e4 * static_cast<double>(ci + 1);
             dc.reservoir_rate = (1.2 * ro + 1.01 * rw + 0.005 * rg) * share;
             dc.cell_pressure = dc.pressure + 2e5;
@@ -230,6 +239,26 @@ bool World::run(int first, int last, Observer* obs) {
         if (sim::fs::dead()) return false;
     }
     return true;
+}
+
+void enter_dir(const std::string& sub) {
+    const std::string path = sim::fs::root() + sub;
+    sim::fs::passthrough(true);
+    sim::fs::mkdirs(path);
+    if (::chdir(path.c_str())) { sim::fs::passthrough(false); throw std::runtime_error("enter_dir: cannot chdir to " + path); }
+    sim::fs::passthrough(false);
+}
+
+void copy_files(const std::string& from_sub, const std::string& to_sub) {
+    const std::string from = sim::fs::root() + from_sub, to = sim::fs::root() + to_sub;
+    sim::fs::passthrough(true);
+    sim::fs::mkdirs(to);
+    for (const auto& n : sim::fs::listdir(from)) {
+        struct stat sb;
+        const std::string p = from + "/" + n;
+        if (!::stat(p.c_str(), &sb) && S_ISREG(sb.st_mode)) sim::fs::spit(to + "/" + n, sim::fs::slurp(p));
+    }
+    sim::fs::passthrough(false);
 }
 
 std::string describe_real_vs_stub() {
